@@ -117,6 +117,7 @@ type heapDecl struct {
 }
 
 type Enc struct {
+	topFc *fctx
 	opaqueActive map[string]int
 	allocOverride string
 	m        *Model
@@ -1202,6 +1203,16 @@ func (e *Enc) inductionFacts(fc *fctx, l *loopInfo, guard string, st, entry *Sta
 			}
 		}
 	}
+	stored := map[*ssa.Alloc]int{}
+	for b := range l.blocks {
+		for _, ins := range b.Instrs {
+			if s, ok := ins.(*ssa.Store); ok {
+				if a, ok := s.Addr.(*ssa.Alloc); ok {
+					stored[a]++
+				}
+			}
+		}
+	}
 	for a, ok := range cands {
 		if !ok || a.Comment == "rangeindex" {
 			continue
@@ -1212,6 +1223,86 @@ func (e *Enc) inductionFacts(fc *fctx, l *loopInfo, guard string, st, entry *Sta
 			continue
 		}
 		e.assume(guard, fmt.Sprintf("(>= %s %s)", now, was))
+		// the counting loop `for ...; a < bound; a++`: a never passes the bound it is tested against
+		// (unless it started beyond it), provided a is stepped by exactly one, once, and the bound is a
+		// constant, a local the loop does not assign, or the length of such a local
+		if stored[a] != 1 {
+			continue
+		}
+		ifi, ok := l.head.Instrs[len(l.head.Instrs)-1].(*ssa.If)
+		if !ok {
+			continue
+		}
+		cmp, ok := ifi.Cond.(*ssa.BinOp)
+		if !ok || cmp.Op != token.LSS {
+			continue
+		}
+		ld, ok := cmp.X.(*ssa.UnOp)
+		if !ok || ld.Op != token.MUL || ld.X != ssa.Value(a) {
+			continue
+		}
+		stepOne := false
+		for b := range l.blocks {
+			// the step must run at most once per iteration: not inside a loop nested in this one
+			nested := false
+			for _, l2 := range fc.loops {
+				if l2 != l && l2.blocks[b] && l.blocks[l2.head] {
+					nested = true
+				}
+			}
+			for _, ins := range b.Instrs {
+				if s, ok := ins.(*ssa.Store); ok && s.Addr == ssa.Value(a) && !nested {
+					if add, ok := s.Val.(*ssa.BinOp); ok {
+						if c, ok := add.Y.(*ssa.Const); ok && c.Value != nil && constant.Compare(c.Value, token.EQL, constant.MakeInt64(1)) {
+							stepOne = true
+						}
+					}
+				}
+			}
+		}
+		if !stepOne {
+			continue
+		}
+		localTerm := func(v ssa.Value) (string, types.Type, bool) {
+			u, ok := v.(*ssa.UnOp)
+			if !ok || u.Op != token.MUL {
+				return "", nil, false
+			}
+			b, ok := u.X.(*ssa.Alloc)
+			if !ok || b.Heap || stored[b] != 0 {
+				return "", nil, false
+			}
+			t, ok := st.loc[b]
+			if !ok || strings.HasPrefix(t, "@lazy!") {
+				return "", nil, false
+			}
+			return t, b.Type().(*types.Pointer).Elem(), true
+		}
+		bound := ""
+		switch y := cmp.Y.(type) {
+		case *ssa.Const:
+			if y.Value != nil && y.Value.Kind() == constant.Int {
+				bound = y.Value.ExactString()
+			}
+		case *ssa.UnOp:
+			if t, _, ok := localTerm(y); ok {
+				bound = t
+			}
+		case *ssa.Call:
+			if bi, ok := y.Call.Value.(*ssa.Builtin); ok && bi.Name() == "len" && len(y.Call.Args) == 1 {
+				if t, ty, ok := localTerm(y.Call.Args[0]); ok {
+					switch e.m.sortOf(ty) {
+					case "Slice":
+						bound = fmt.Sprintf("(sl_len %s)", t)
+					case "Str":
+						bound = fmt.Sprintf("(slen %s)", t)
+					}
+				}
+			}
+		}
+		if bound != "" {
+			e.assume(guard, fmt.Sprintf("(or (<= %s %s) (= %s %s))", now, bound, now, was))
+		}
 	}
 }
 
